@@ -403,6 +403,18 @@ func (b *Builder) addDir(dir string, userRequested bool) error {
 		files = append(files, buildPkg.TestGoFiles...)
 	}
 
+	// A package is added whole or not at all: if one of its files cannot be
+	// read or parsed, the files of it which were parsed in this call are
+	// forgotten again, so that a later request for the package reports the
+	// error again instead of silently using the files that are left.
+	parsedBefore, hadParsed := b.parsed[pkgPath]
+	forget := func() {
+		if hadParsed {
+			b.parsed[pkgPath] = parsedBefore
+		} else {
+			delete(b.parsed, pkgPath)
+		}
+	}
 	for _, file := range files {
 		if !strings.HasSuffix(file, ".go") {
 			continue
@@ -410,10 +422,12 @@ func (b *Builder) addDir(dir string, userRequested bool) error {
 		absPath := filepath.Join(buildPkg.Dir, file)
 		data, err := ioutil.ReadFile(absPath)
 		if err != nil {
+			forget()
 			return fmt.Errorf("while loading %q: %v", absPath, err)
 		}
 		err = b.addFile(pkgPath, absPath, data, userRequested)
 		if err != nil {
+			forget()
 			return fmt.Errorf("while parsing %q: %v", absPath, err)
 		}
 	}
